@@ -294,8 +294,23 @@ func runC13(src sim.Source, o Opts) *Result {
 			res.fail("C13/route-handlemiddleware", "Route.HandleMiddleware of %s ran middleware %v, expected the route-specific chain %v", r0.Pattern, log.MW, r0.MW)
 			return res
 		}
+		// ... and nothing else: a panic of the handler reaches the caller as it is (the router-wide Recovery of
+		// DefaultOptions, like any other global middleware, is not part of that chain), nothing is written
+		marker := &struct{ x int }{13}
+		log.MW, log.Hits = nil, nil
+		log.Inner = func(fox.Context, *world.Hit) { panic(marker) }
+		var got any
+		func() {
+			defer func() { got = recover() }()
+			rt.HandleMiddleware(cc)
+		}()
+		log.Inner = nil
+		if got != any(marker) {
+			res.fail("C13/route-handlemiddleware", "Route.HandleMiddleware of %s: the handler's panic came out as %v (a middleware outside the route-specific chain %v intercepted it)", r0.Pattern, got, r0.MW)
+			return res
+		}
 		cc.Close()
-		res.Checks += 2
+		res.Checks += 3
 	}
 	// Update replaces the route-specific middleware
 	{
